@@ -80,7 +80,19 @@ func newAPI4(s *Sim, conn net.PacketConn) *api4 {
 	return &api4{c: c, dest: dest, mt: s.cfg.MsgType, big: s.cfg.BigReq}
 }
 
-func xid4(x int) dhcpv4.TransactionID { return dhcpv4.TransactionID{0xab, byte(x >> 16), byte(x >> 8), byte(x)} }
+// xidMap (set per run): how the model's transaction ids 7 and 8 appear on the wire - ordinary values, or the ends of the
+// domain (all zeroes is what a hand-built message carries and as legal as any other value; all ones)
+var xidMap int
+
+func xid4(x int) dhcpv4.TransactionID {
+	if xidMap == 1 && x == 7 || xidMap == 2 && x == 8 {
+		return dhcpv4.TransactionID{}
+	}
+	if xidMap == 1 && x == 8 || xidMap == 2 && x == 7 {
+		return dhcpv4.TransactionID{0xff, 0xff, 0xff, 0xff}
+	}
+	return dhcpv4.TransactionID{0xab, byte(x >> 16), byte(x >> 8), byte(x)}
+}
 
 func (a *api4) IDOf(p any) int {
 	m, _ := p.(*dhcpv4.DHCPv4)
@@ -248,7 +260,15 @@ func newAPI6(s *Sim, conn net.PacketConn) *api6 {
 	return &api6{c: c, dest: dest, mt: s.cfg.MsgType, big: s.cfg.BigReq}
 }
 
-func xid6(x int) dhcpv6.TransactionID { return dhcpv6.TransactionID{byte(x >> 16), byte(x >> 8), byte(x)} }
+func xid6(x int) dhcpv6.TransactionID {
+	if xidMap == 1 && x == 7 || xidMap == 2 && x == 8 {
+		return dhcpv6.TransactionID{}
+	}
+	if xidMap == 1 && x == 8 || xidMap == 2 && x == 7 {
+		return dhcpv6.TransactionID{0xff, 0xff, 0xff}
+	}
+	return dhcpv6.TransactionID{byte(x >> 16), byte(x >> 8), byte(x)}
+}
 
 func (a *api6) IDOf(p any) int {
 	m, _ := p.(*dhcpv6.Message)
